@@ -74,7 +74,9 @@ fn handle(req: &Value) -> Value {
             if let Some(a) = req["programs"].as_array() {
                 for p in a {
                     let src = p["src"].as_str().unwrap_or("");
-                    outs.push(run_on(&mut interp, src, p["path"].as_str(), 50_000_000));
+                    let mut o = run_on(&mut interp, src, p["path"].as_str(), 50_000_000);
+                    if let Some(m) = o.as_object_mut() { m.insert("call_depth_after".to_string(), json!(interp.call_depth())); }
+                    outs.push(o);
                 }
             }
             json!({"outs": outs})
@@ -177,9 +179,17 @@ fn handle(req: &Value) -> Value {
                             if idle_suspends > 3 { violation = Some("Suspended although the host has nothing left to answer".into()); break; }
                         } else {
                             idle_suspends = 0;
-                            let responses: Vec<OrderResponse> = todo.iter().map(|i| OrderResponse { id: tsrun::OrderId(*i), result: Ok(RuntimeValue::unguarded(JsValue::Number(*i as f64))) }).collect();
+                            let err_for: Vec<u64> = req["error_for"].as_array().map(|a| a.iter().filter_map(|v| v.as_u64()).collect()).unwrap_or_default();
+                            let mk = |i: &u64| OrderResponse { id: tsrun::OrderId(*i), result: if err_for.contains(i) { Err(tsrun::JsError::type_error(format!("host error {}", i))) } else { Ok(RuntimeValue::unguarded(JsValue::Number(*i as f64))) } };
                             answered.extend(todo.iter());
-                            interp.fulfill_orders(responses);
+                            let mode = req["fulfill"].as_str().unwrap_or("batch");
+                            if mode == "split" {
+                                // one fulfill_orders call per response, last issued first
+                                for i in todo.iter().rev() { interp.fulfill_orders(vec![mk(i)]); }
+                            } else {
+                                interp.fulfill_orders(todo.iter().map(mk).collect());
+                            }
+                            if mode == "then_empty" { interp.fulfill_orders(Vec::new()); }
                         }
                     }
                     Ok(StepResult::NeedImports(_)) => { trace.push(json!("NeedImports")); break; }
